@@ -142,6 +142,24 @@ def known_sig(t, l, clause):
                 if live > conc:
                     over.append(x)
         out['over_limit_tasks_all_joins'] = bool(over) and all(x['isJoin'] for x in over)
+    if clause == 'WaitBeforeRespected':
+        # which tasks started their action earlier than wait-before allows ?
+        born, kid0 = {}, {}
+        for st in t['steps'][:l]:
+            now = st['ev'].get('now', 0)
+            for x in st['obs']['tk']:
+                born.setdefault(x['sid'], now)
+            for a in st['obs']['ax']:
+                kid0.setdefault(a['task'], now)
+            for w in st['obs']['wf']:
+                if w.get('parent'):
+                    kid0.setdefault(w['parent'], now)
+        viol = []
+        for x in t['steps'][l - 1]['obs']['tk']:
+            d = t['prog']['tasks'].get(x['name'], {})
+            if d.get('waitBefore', 0) > 0 and not x['isJoin'] and x['sid'] in kid0 and kid0[x['sid']] < born[x['sid']] + d['waitBefore']:
+                viol.append(d)
+        out['early_tasks_all_have_pause_before'] = bool(viol) and all(d.get('pauseBefore') for d in viol)
     if clause == 'StopAck' and l >= 2:
         prev = {w['sid']: w['state'] for w in t['steps'][l - 2]['obs']['wf']}
         out['stop_state'] = ev.get('arg', '')
